@@ -100,6 +100,12 @@ CHECKS = {
          'Theorems: radial profile derivative (auto_derive); the predictor along a coordinate line is a sum of radial profiles along a line in transformed space (any transform); the masked closed-form L2 gradient followed by the transform is that derivative wherever the query is at distance >= eps from all centers and the transform is used symmetrically (proved for identity/diagonal; = symmetry of the matrix for full); a coincident center contributes exactly zero. '
          'Every entry of Kernel.get_function_grads (all CPU kernels, 1-4 outputs, 1-3 query points, all transforms, coincident points) is compared with the 60-digit derivative of the documented closed form; L2/light-L2 entries are certified against the Coq model by `interval`; RFM.get_grads vs finite differences; xRFM.get_grads vs the leaf reached.',
          'partial: for product / Lpq / sum-power kernels the derivative is computed by torch.func.jacrev (contract, checked numerically only — this is how the multi-output cdist/vmap defect was found). Trusted: Coq kernel, Coquelicot, Interval, real-number axioms, mpmath.'),
+
+ 'C14': ('DESIGN.md §4 C14',
+         'Coq proofs over Q (entrywise matrix algebra on lists) of the AGOP accumulation model + refutation witness for centred accumulation + vm_compute of the model on the gradients the implementation itself returns',
+         'Theorems for every number of points/outputs/dimension and every batch size: the accumulated matrix is the sum of gradient outer products, independent of the batch size (no centring), symmetric, positive semi-definite (x^T M x = sum (g.x)^2), diagonal mode = its diagonal, normalised entries <= 1. With centring ON the statement is refuted in the model (witness) and on the implementation (known finding). '
+         'fit_M(inplace=False) of small fitted leaves (all CPU kernels, diag/full, 1-3 outputs, batch sizes 1..n+5) is compared with the Q model evaluated in Coq on the implementation\'s own get_function_grads output; root squares back; agop_best_model is the AGOP of the returned predictor.',
+         'partial: matrix root (SVD) is a contract (checked numerically), gradient values are C04; the 1e-8 diagonal ridge that the matrix-power routine adds in place is part of the model. KNOWN FINDING: center_grads=True is batch-size dependent.'),
 }
 
 NOT_YET = 'check not built yet in this session (planned, see DESIGN.md §4)'
